@@ -8,9 +8,8 @@ def spec(tier, seed):
     generated = {"h263/src/decoder/state.rs": gen}
     # the next picture's start code is found after 0..7 zero padding bits at every reader phase: header harnesses of C06
     c6 = c06.spec(tier, seed)
-    for k, v in c6["generated"].items():
-        generated[k] = generated.get(k, "") + v
-    jobs += [j for j in c6["jobs"] if "sorenson" in j.harness or "_k0_" in j.harness]
+    generated["h263/src/parser/picture.rs"] = c6["generated"]["h263/src/parser/picture.rs"]
+    jobs += [j for j in c6["jobs"] if j.harness.startswith("c06_") and ("sorenson" in j.harness or "_k0_" in j.harness)]
     from vf import gen_reader as gr
     rgen = ""
     hs = [h for h in gr.build(tier, seed) if any(o[0] == "commit" for (_, ops) in h[2] for o in ops)]
